@@ -130,7 +130,21 @@ pub fn read_client_log(sim: &mut Sim, i: usize) {
     let new: Vec<_> = log[c.log_pos..].to_vec();
     c.log_pos = log.len();
     let session = c.session;
+    // A trigger with two targets runs the observer once per target: two consecutive entries with the same sequence
+    // number and different entities are ONE delivery (at most as many entries as the trigger has targets are merged,
+    // so a second delivery of the same trigger still shows as a duplicate).
+    let mut merged: Vec<(SK, u32, u32, Option<Entity>, Option<Entity>)> = Vec::new();
     for (kind, seq, tick_at, ent) in new {
+        let two = sim.semits.iter().any(|e| e.seq == seq && e.refent2.is_some());
+        if let Some(last) = merged.last_mut() {
+            if two && kind == SK::Trig && last.0 == SK::Trig && last.1 == seq && last.4.is_none() && last.3 != ent {
+                last.4 = ent;
+                continue;
+            }
+        }
+        merged.push((kind, seq, tick_at, ent, None));
+    }
+    for (kind, seq, tick_at, ent, ent2) in merged {
         *sim.delivered_s.entry((i, seq)).or_default() += 1;
         let Some(em) = sim.semits.iter().find(|e| e.seq == seq).cloned() else {
             if sim.or.ev_once {
@@ -172,6 +186,15 @@ pub fn read_client_log(sim: &mut Sim, i: usize) {
                     sim.fail("C04.reference", format!("client {i} event {seq} resolved {ent:?} but the entity map says {expect:?}"));
                 } else if sim.clients[i].app.world().get_entity(ent.unwrap()).is_err() {
                     sim.fail("C04.dead_reference", format!("client {i} event {seq} resolved to a dead entity"));
+                }
+            }
+            if let Some(sref2) = em.refent2 {
+                let map = sim.clients[i].app.world().resource::<ServerEntityMap>();
+                let expect = map.to_client().get(&sref2).copied();
+                if expect.is_none() || ent2 != expect {
+                    sim.fail("C04.reference", format!("client {i} trigger {seq}: second target resolved {ent2:?} but the entity map says {expect:?}"));
+                } else if sim.clients[i].app.world().get_entity(ent2.unwrap()).is_err() {
+                    sim.fail("C04.dead_reference", format!("client {i} trigger {seq}: second target resolved to a dead entity"));
                 }
             }
         }
@@ -479,7 +502,11 @@ pub fn check_events_final(sim: &mut Sim) -> Result<(), Fail> {
     }
     for i in 0..n {
         for kind in [SK::Dep, SK::Ind, SK::Trig] {
-            let seqs: Vec<u32> = sim.clients[i].app.world().resource::<ClientLog>().0.iter().filter(|e| e.0 == kind).map(|e| e.1).collect();
+            let mut seqs: Vec<u32> = sim.clients[i].app.world().resource::<ClientLog>().0.iter().filter(|e| e.0 == kind).map(|e| e.1).collect();
+            if kind == SK::Trig {
+                // one entry per target of a trigger (a repeated delivery is the duplicate check's business)
+                seqs.dedup();
+            }
             if seqs.windows(2).any(|w| w[0] >= w[1]) {
                 return Err(Fail::new("C05.order", format!("client {i} got {kind:?} events out of order: {seqs:?}")));
             }
